@@ -403,7 +403,7 @@ pub fn check(args: &Args, prop: &str) -> Outcome {
     ev.evaluations += nw;
     // 2. generated histories
     let miri = args.has("--miri");
-    let n = if miri { 12 } else { args.n(200_000, 10_000_000) };
+    let n = if miri { 12 } else { args.n(200_000, 3_000_000) };
     let max_events = if miri { 30 } else { args.tier.pick(120, 400) };
     let res = par_run(n, args.threads, |i| {
         if deadline.expired() {
